@@ -434,6 +434,34 @@ class Inliner:
                         top.keywords[i - len(top.args)].value = new_arg
                     return pre + self._process_stmt(func, s, names | {tmp}, stack + (id(g.node),))
         # compound statements: recurse into blocks; simple ones: expression-level inlining
+        if isinstance(s, ast.If) and len(stack) < MAX_DEPTH + 2:
+            # ``if not self._helper(x): ...`` with a multi-statement helper evaluated FIRST in the test:
+            # ``tmp = self._helper(x)`` (inlined) ; ``if not tmp: ...``
+            holder, attr_ = None, None
+            t = s.test
+            if isinstance(t, ast.UnaryOp) and isinstance(t.op, ast.Not):
+                holder, attr_, t = t, 'operand', t.operand
+            if isinstance(t, ast.BoolOp):
+                holder, attr_, t = t, 0, t.values[0]
+                if isinstance(t, ast.UnaryOp) and isinstance(t.op, ast.Not):
+                    holder, attr_, t = t, 'operand', t.operand
+            inner = self._unwrap_call(t)
+            g = self._target(func, inner, stack) if inner is not None else None
+            if g is not None:
+                body = _docstring_free(g.node.body)
+                if not (len(body) == 1 and isinstance(body[0], ast.Return)):
+                    self._counter += 1
+                    tmp = f'{g.name.strip("_")}_value{self._counter}'
+                    pre = self._inline_stmt_call(func, s, inner, 'assign', [ast.Name(id=tmp, ctx=ast.Store())], names | {tmp}, stack)
+                    if pre is not None:
+                        new_t = ast.copy_location(ast.Name(id=tmp, ctx=ast.Load()), t)
+                        if holder is None:
+                            s.test = new_t
+                        elif attr_ == 'operand':
+                            holder.operand = new_t
+                        else:
+                            holder.values[0] = new_t
+                        return pre + self._process_stmt(func, s, names | {tmp}, stack + (id(g.node),))
         if isinstance(s, ast.If):
             s.test = self._expr_inline(func, s.test, stack)
             s.body = self._process_block(func, s.body, names, stack)
